@@ -28,7 +28,11 @@ func TestRace(t *testing.T) {
 			t.Fatal(err)
 		}
 		ts := time.Now().Unix()
-		a.Ingress.ServeHTTP(httptest.NewRecorder(), signed("n1", ts, true))
+		if it%3 != 2 {
+			// two thirds of the rounds: the replays race with the reload after the original was honoured; one third:
+			// the very first requests of the route race with each other and with the reload (lazily built state)
+			a.Ingress.ServeHTTP(httptest.NewRecorder(), signed("n1", ts, true))
+		}
 		if it%2 == 1 {
 			os.WriteFile(a.ConfigPath, []byte(dsl(2*tol)), 0o644)
 		}
